@@ -824,10 +824,39 @@ def r0810(prog, chk):
             chk.ob("R08.10", f"{fi.short}|{A.keytext(fi.node, tr)[:60]}|both UFO libraries are asked for the same measurement", ok, where(fi, tr), detail=f"ufoLib2: {sorted(meths)}; defcon: {sorted(attrs)}",
                    message=f"{fi.short}: the ufoLib2 branch measures {sorted(meths)} and the defcon fallback {sorted(attrs)}: the same UFO gives different output depending on the library it was opened with")
     need(n >= 1, "no library-protocol fallback for bounds found")
-    chk.minimum("R08.10", 1)
+    # the same holds for hasattr-dispatched fallbacks and pens: one function measures one quantity
+    EXACT = {"bounds", "getBounds", "BoundsPen"}
+    CONTROL = {"controlPointBounds", "getControlBounds", "ControlBoundsPen"}
+    m_ = 0
+    for fi in ix.functions.values():
+        if isinstance(fi.node, ast.Lambda) or fi.parent is not None:
+            continue
+        asked = {}
+        for x in A.body_nodes(fi.node):
+            nm = None
+            if isinstance(x, ast.Attribute) and isinstance(x.ctx, ast.Load) and x.attr in EXACT | CONTROL and not (isinstance(x.value, ast.Name) and x.value.id == "pen" and x.attr == "bounds") \
+                    and not (x.attr == "bounds" and isinstance(x.value, ast.Name) and any(isinstance(d.value, ast.Call) and A.callee_name(d.value) in ("BoundsPen", "ControlBoundsPen")
+                                                                                       for d in prog.reaching(fi, x.value.id, x.value))):
+                nm = x.attr
+            elif isinstance(x, ast.Call) and A.callee_name(x) in ("BoundsPen", "ControlBoundsPen"):
+                nm = A.callee_name(x)
+            if nm:
+                asked.setdefault("exact" if nm in EXACT else "control", []).append((x, nm))
+        if not asked:
+            continue
+        m_ += 1
+        mixed = len(asked) == 2
+        chk.ob("R08.10", f"{fi.short}|one kind of bounds per measuring function", not mixed, where(fi, asked.get("control", asked.get("exact"))[0][0]),
+               detail="; ".join(f"{k}: {sorted({n_ for _, n_ in v})}" for k, v in sorted(asked.items())),
+               message=f"{fi.short} mixes exact bounds ({sorted({n_ for _, n_ in asked.get('exact', [])})}) and control-point bounds ({sorted({n_ for _, n_ in asked.get('control', [])})}): "
+                       f"which one is used depends on the UFO library the glyph object comes from, so the same UFO compiles differently under defcon and ufoLib2")
+    need(m_ >= 3, f"R08.10: measuring functions found: {m_}")
+    chk.minimum("R08.10", 4)
 
 
 MUTANTS = [
+    M("ufoLib2 components ranked by control box, defcon components by exact bounds (seeded C08l)", "ufo2ft/filters/propagateAnchors.py", "_bounds",
+      "fontTools.pens.boundsPen.BoundsPen(glyphSet=glyph_set)", "fontTools.pens.boundsPen.ControlBoundsPen(glyphSet=glyph_set)", rule="R08.10"),
     M("ufoLib2 glyphs measured by control-point bounds, defcon glyphs by exact bounds (seeded C08h)", "ufo2ft/filters/dottedCircle.py", "DottedCircleFilter.check_and_add_anchors",
       "glyph.getBounds(font)", "glyph.getControlBounds(font)", rule="R08.10"),
     M("BlueScale fallback appends OtherBlues to the font's own BlueValues (seeded C08g)", "ufo2ft/fontInfoData.py", "postscriptBlueScaleFallback",
